@@ -168,7 +168,8 @@ def g_cand(rng):
 
 
 def g_media(rng, session_dir):
-    proto = rng.choice(PROTOS + ["RTP/SAVPFX", "RTP/AVPF", "udpx", "UDP/TLS/RTP/SAVPF", "TCP/MSRP", "RTP/AV"])
+    # white space is ASCII white space: a token may contain any other character, also the non-ASCII spaces (RFC 8866 non-ws-string)
+    proto = rng.choice(PROTOS + ["RTP/SAVPFX", "RTP/AVPF", "udpx", "UDP/TLS/RTP/SAVPF", "TCP/MSRP", "RTP/AV", "X/\u00a0Y", "RTP/\u3000AVP"])
     m = {"mt": rng.choice(MTYPES), "port": rng.choice([0, 9, 49170, 65535]), "pn": rng.choice([None, None, 2, U32]), "proto": proto,
          "fmts": [rng.choice([0, 8, 96, 127, U32]) for _ in range(rng.randrange(0, 4))],
          "dir": rng.choice(DIRS), "c": g_conn(rng) if rng.random() < 0.4 else None, "b": [g_bw(rng) for _ in range(rng.randrange(0, 3))],
@@ -184,7 +185,7 @@ def g_media(rng, session_dir):
 
 def g_session(rng):
     sdir = rng.choice(DIRS + ["sendrecv"] * 3)
-    s = {"name": rng.choice(["-", "call", "a b", " x", "sess ü", "s=1", ""]), "o": {"user": rng.choice(["-", "alice", "u_1"]), "id": str(rng.choice([0, 1, 2890844526, U64])),
+    s = {"name": rng.choice(["-", "call", "a b", " x", "sess ü", "s=1", ""]), "o": {"user": rng.choice(["-", "alice", "u_1", "-", "alice", "Zo\u00eb", "\u5c71\u7530\u3000\u592a\u90ce", "a\u00a0b", "x\u2009y\u2003z"]), "id": str(rng.choice([0, 1, 2890844526, U64])),
                                                                                    "ver": str(rng.choice([0, 1, 2890842807, U64])), "addr": g_addr(rng)},
          "t": (rng.choice([0, 1, 3034423619, U64]), rng.choice([0, 3042462419, U64])), "dir": sdir,
          "c": g_conn(rng) if rng.random() < 0.6 else None, "b": [g_bw(rng) for _ in range(rng.randrange(0, 3))],
